@@ -515,7 +515,7 @@ func (e *sessEngine) Step(ws []string, o *Out) string {
 			MinReconnectBackoff: 20 * time.Millisecond,
 			MaxReconnectBackoff: 50 * time.Millisecond,
 		}
-		to := 2 * time.Second
+		to := 10 * time.Second
 		if e.shut {
 			to = 300 * time.Millisecond
 		}
